@@ -91,7 +91,7 @@ def replay(spec, u, unit_res, trace, scratch, REPO, VERIF):
         exe = build_janet(scratch, VERIF)
         if not exe:
             return False, 'could not build janet from the working tree for replay'
-        script = spec['script']
+        script = spec.get('script') or open(os.path.join(VERIF, 'replay', spec['script_file'])).read()
         for k, v in vals.items():
             script = script.replace('{' + k + '}', str(v))
         sp = os.path.join(scratch, 'replay_%s.janet' % re.sub(r'\W', '_', u['id']))
